@@ -31,7 +31,8 @@ import (
 //     types, calls of functions translated earlier in the whitelist (not of Option-valued ones);
 //   - "closure tables": a function whose body is a list of `name := func(..) .. {..}` followed by
 //     `return []T{name, ...}` (symmetry.symmetries) becomes one Lean function per closure plus a
-//     dispatcher indexed by `Fin n`.
+//     dispatcher indexed by `Fin n`; a local `name := func..` in a plain function becomes a helper whose leading
+//     parameters are the captured variables (which must never be reassigned in the enclosing function).
 //
 // Type mapping: uint64/uint32/uint16/uint8 (and named types over them) -> BitVec n (wrap-around
 // is modelled); int/int64/time.Duration -> Int (no wrap: the theorems carry range hypotheses);
